@@ -290,6 +290,17 @@ def e2e_cases(ctx, rng, count):
                 ast_ = now.replace(microsecond=0) - datetime.timedelta(seconds=age)
                 o = [x for x in (q, "start=" + ast_.strftime("%Y-%m-%dT%H:%M:%SZ"), "depth=60") if x]
                 out.append((stream, f"/dash/live/{stream}/hand_made.mpd?" + "&".join(o), now))
+    # fixed: a whole number of days (plus less than a second) after the start – elapsed time whose
+    # seconds-within-the-day component is zero – for midnight and non-midnight starts, symbolic and explicit
+    for k, (stream, st_, now_) in enumerate([
+            ("bbb", "2023-04-01T00:00:00Z", (2023, 5, 1, 0, 0, 0, 400000)),
+            ("syn1", "2024-02-10T17:45:12Z", (2024, 3, 11, 17, 45, 12, 700000)),
+            ("tears", "month", (2024, 5, 3, 0, 0, 0, 400000)),
+            ("syn9", "year", (2024, 3, 1, 0, 0, 0, 999999))]):
+        for q in ("", "timeline=1"):
+            o = [x for x in (q, "start=" + st_, "depth=60") if x]
+            out.append((stream, f"/dash/live/{stream}/hand_made.mpd?" + "&".join(o),
+                        datetime.datetime(*now_, tzinfo=datetime.timezone.utc)))
     return out
 
 
